@@ -70,7 +70,7 @@ def units_of(base):
 CASES = {'upper': str.upper, 'capital': lambda w: w[:1].upper() + w[1:], 'alternate': lambda w: ''.join(c.upper() if i % 2 else c.lower() for i, c in enumerate(w))}
 BOUNDS = {'metamorphic': '%d base programs (all 18 statement kinds, every expression form) x { every alternative of every keyword / phrase slot occurrence (%d slots), 3 case styles for all keywords, one symbolic ignorable character (any blank other than line feed; any ignorable punctuation that is not a token) or a comment or two adjacent comments at every token boundary }' % (len(BASE), len(SLOTS)),
           'precedence': 'X op1 Y op2 Z for all 13 x 13 ordered operator pairs (worded and symbolic spellings), plus unary / list / subscript / call variants, against a reference precedence-climbing parser',
-          'blocks': 'every control-flow shape of <= 3 statements (mirsym/progen.py): statement kinds and block nesting of the parsed tree equal the shape',
+          'blocks': 'every control-flow shape of <= 2 (thorough 3) statements incl. break / continue / until (mirsym/progen.py) and every structure-only shape (say / if / if-else / while, nesting <= 3, blocks <= 3 statements) of <= 4 (thorough 5) statements, parsed by the VM-executed parser: statement kinds and block nesting of the parsed tree equal the shape; structure-only shapes of 5 (thorough 6) statements additionally with the natively run parser (plain exhaustive enumeration, listed separately in the evidence)',
           'literals': 'number literals: all texts d, d.d, .d, dd, d.dd, dd.d over digits {0,1,5,9} -> Python float; string literals of 0..=2 symbolic characters (any code point of ASCII ∪ R except the quote) -> exactly those characters'}
 OUTSIDE = ['chains mixing a worded `is` comparison with a symbolic comparison operator (the ladder of the statement does not settle them)', 'poetic literals (C11)', 'identifier case (C15)', 'programs longer than the base programs']
 ASSUMPTIONS = ['char predicates / case mapping exact on ASCII, table from the real std for R', 'str / CharIndices / Option / Vec / itertools models (DESIGN.md §2.4)', 'the spelling table SLOTS of this file is the reference for aliases and phrases']
@@ -472,6 +472,80 @@ def h_blocks(vm, mir, shapes):
     return out
 
 
+import functools
+
+
+@functools.lru_cache(None)
+def _st(n, depth):
+    """structure-only statements of size n: say / if / if-else / while (no break / continue / error statements)"""
+    out = []
+    if n == 1: out += [('say',), ('if', (), None)]
+    if depth <= 0: return tuple(out)
+    for b in _bl(n - 1, depth - 1):
+        if b: out += [('if', b, None), ('while', b)]
+    for k in range(0, n):
+        for t in _bl(k, depth - 1):
+            for e in _bl(n - 1 - k, depth - 1):
+                if t or e: out.append(('if', t, e))
+    return tuple(out)
+
+
+@functools.lru_cache(None)
+def _bl(n, depth, maxlen=3):
+    if n == 0: return ((),)
+    res = []
+    def rec(rem, acc):
+        if rem == 0: res.append(tuple(acc)); return
+        if len(acc) >= maxlen: return
+        for k in range(1, rem + 1):
+            for st in _st(k, depth):
+                if acc and acc[-1] == ('say',) and st == ('say',): continue
+                rec(rem - k, acc + [st])
+    rec(n, [])
+    return tuple(res)
+
+
+def structure_shapes(lo, hi):
+    """[(text, shape)] for every structure-only top-level block of size lo..=hi (nesting <= 3, block length <= 3)"""
+    from .. import progen
+    out = []
+    for n in range(lo, hi + 1):
+        for b in _bl(n, 3):
+            r = progen._R()
+            try: r.block(b, None)
+            except OverflowError: continue
+            r.lines.append(r.marker())
+            out.append(('\n'.join(r.lines) + '\n', b))
+    return out
+
+
+def native_structure_check(ctx, lo, hi):
+    """the same skeleton check on larger shapes with the real parser run natively (tree rebuilt by mirsym/astparse.py): exhaustive
+    enumeration of concrete runs, reported separately from the solver-decided / VM-executed parts"""
+    from ..vm import VM, Explorer
+    from ..astparse import program_from_debug
+    mir = ctx.mir('dev'); nat = ctx.native('dev'); bad = []; n = 0
+    vm = VM(mir, Explorer()); vm.str_mode = 'bounded'
+    sg = Sig(vm, mir)
+    def skel(stmts):
+        o = []
+        for k, a in stmts:
+            if k == 'If':
+                eb = sg.d(sg.f(a, 'else_block'))
+                o.append(('If', skel(sg.block(sg.f(a, 'then_block'))), None if eb.variant == 0 else skel(sg.block(eb.fields[0]))))
+            elif k in ('While', 'Until'): o.append((k, skel(sg.block(sg.f(a, 'block')))))
+            else: o.append(k)
+        return o
+    for text, shape in structure_shapes(lo, hi):
+        n += 1
+        r = nat.call({'op': 'parse', 'src': text}, timeout=20)
+        want = skeleton_of_shape(shape) + ['Output']
+        if not r.get('ok'): bad.append((text, 'rejected: ' + str(r.get('error'))[:80])); continue
+        got = skel(sg.statements(program_from_debug(vm, mir, r['ast'])))
+        if got != want: bad.append((text, f'parsed as {got}, the layout means {want}'))
+    return n, bad
+
+
 def block_shapes(size):
     from .. import progen
     progen.LOOPS, progen.ERR = ('while', 'until'), False
@@ -555,11 +629,18 @@ def jobs(ctx, tier):
         js.append(Job(f'precedence/{k}', h_expr, (mir, ch), witness=['judged'], str_mode='bounded', fuel=30_000_000, weight=10))
     for k, ch in enumerate(chunks(block_shapes(2 if q else 3), 8)):
         js.append(Job(f'blocks/{k}', h_blocks, (mir, ch), witness=['judged'], str_mode='bounded', fuel=30_000_000, weight=10))
+    for k, ch in enumerate(chunks(structure_shapes(1, 4 if q else 5), 12)):
+        js.append(Job(f'structure/{k}', h_blocks, (mir, ch), witness=['judged'], str_mode='bounded', fuel=30_000_000, weight=12))
     for k, ch in enumerate(chunks(number_texts(), 8)):
         js.append(Job(f'numbers/{k}', h_number, (mir, ch), witness=['judged'], str_mode='bounded', fuel=30_000_000, weight=5))
     for n in range(0, 3):
         js.append(Job(f'string-literal/{n}', h_string, (mir, n), witness=['judged'], str_mode='bounded', fuel=30_000_000, weight=30))
     return js
+
+
+def post_check(ctx, results):
+    n, bad = native_structure_check(ctx, 5, 5) if ctx.tier == 'quick' else native_structure_check(ctx, 6, 6)
+    return {'native_structure_shapes': n, 'native_structure_mismatches': [list(b) for b in bad[:10]], 'violations': [{'role': 'blocks:different-nesting', 'detail': d, 'cex': {'text': t}} for t, d in bad[:5]]}
 
 
 def validate(ctx):
@@ -585,6 +666,7 @@ def validate(ctx):
 def replay(ctx, f):
     cex = f.get('cex') or {}
     out = {'reproduced': None}
+    if f.get('native_found'): return {'reproduced': True, 'note': 'found by the natively executed parser'}
     if 'text' not in cex: return out
     erase = lambda s: re.sub(r'SourceRange \{ start: SourceLocation \{ line: \d+, column: \d+ \}, end: SourceLocation \{ line: \d+, column: \d+ \} \}|SourceLocation \{ line: \d+, column: \d+ \}', '_', s or '')
     res = {}
